@@ -890,12 +890,9 @@ func (p *parser) scanDollar() (*RegexNode, error) {
 			}
 		}
 	} else if angled && p.isGroupNameStartChar(ch) {
+		// a name that cannot be scanned (ECMAScript: a bad escape in it) is no reference: literalize below
 		capname, err := p.scanCapname()
-		if err != nil {
-			return nil, err
-		}
-
-		if p.charsRight() > 0 && p.moveRightGetChar() == '}' {
+		if err == nil && p.charsRight() > 0 && p.moveRightGetChar() == '}' {
 			if p.isCaptureName(capname) {
 				return newRegexNodeM(NtRef, p.options, p.captureSlotFromName(capname)), nil
 			}
